@@ -303,7 +303,14 @@ def explore(mod, modname, tier, jobs, real_err=None):
     for i in picks:
         for s in per_unit[i][1][:2]:
             merged.samples.append(s)
-    merged.violations.sort(key=lambda v: (v[0], json.dumps(v[2], sort_keys=True, default=str)))
+    def _size(case):
+        if isinstance(case, dict):
+            for k in ("labels", "history", "deviations"):
+                if isinstance(case.get(k), (list, tuple)):
+                    return len(case[k])
+        return 0
+    # per signature the smallest case first (fewest deviations / shortest history), then a fixed order
+    merged.violations.sort(key=lambda v: (v[0], _size(v[2]), json.dumps(v[2], sort_keys=True, default=str)))
     merged.extra["units"] = len(units)
     return merged, errors
 
